@@ -25,7 +25,7 @@ def mintStep : MSt → {β : Type} → Eff β → β → Option MSt
     if s0 = .issued then (match r with | .ok _ => some (.done id0) | .error _ => some (.st id0 s0)) else none
   | _, _, _, _ => none
 
-def mintAuto : WAuto := ⟨MSt, mintStep⟩
+def mintAuto : WAuto := ⟨MSt, fun e => e.readOnly, fun _ h => h, mintStep⟩
 
 def mintRel (db0 : DB) : MSt → DB → Prop
   | .init, db => db = db0
@@ -99,7 +99,7 @@ theorem mint_sound (db0 : DB) : Sound mintAuto (mintRel db0) := by
 
 /-! ## the shape of `MintTokens` -/
 
-theorem conf_eff_ro (M : WAuto) {β : Type} (e : Eff β) (h : e.readOnly = true) (a : M.A) :
+theorem conf_eff_ro (M : WAuto) {β : Type} (e : Eff β) (h : M.isRead e = true) (a : M.A) :
     Conf M (fun r a' => a' = a ∧ ∃ v, r = Except.ok v) a (eff e : PM β).run :=
   Or.inl ⟨h, fun r => ⟨rfl, r, rfl⟩⟩
 
@@ -114,8 +114,9 @@ theorem conf_throw (M : WAuto) {α : Type} (Q : Except E α → M.A → Prop) (a
     Conf M Q a (throw e : PM α).run := h
 
 /-- a PM program without writes: any result, same abstract state -/
-theorem conf_noWrites (M : WAuto) {α : Type} (x : PM α) (h : NoWrites x.run) (a : M.A) :
-    Conf M (fun _ a' => a' = a) a x.run := Conf.ofNoWrites M _ h a
+theorem conf_noWrites (M : WAuto) (hM : ∀ {β : Type} (e : Eff β), e.readOnly = true → M.isRead e = true)
+    {α : Type} (x : PM α) (h : NoWrites x.run) (a : M.A) :
+    Conf M (fun _ a' => a' = a) a x.run := Conf.ofAllRead M _ (AllRead.ofNoWrites M hM _ h) a
 
 /-- `dbTry` of a write: ok in the state the automaton moves to on ok, the generic db error in the state it moves to
     on an error -/
@@ -199,17 +200,17 @@ theorem conf_mintInner (cx : Cx) (q : MintQ) (outs : List BMsg) (sig : QSig) (a0
       fun e a' h => Or.inr ⟨.pending, h⟩
     split
     · exact conf_throw mintAuto _ _ _ (Or.inr ⟨.pending, rfl⟩)
-    · refine Conf.pmBind mintAuto _ _ _ _ _ (conf_noWrites mintAuto _ (noWrites_failIf _ _) _) ?_ herr
+    · refine Conf.pmBind mintAuto _ _ _ _ _ (conf_noWrites mintAuto (fun _ h => h) _ (noWrites_failIf _ _) _) ?_ herr
       intro _ a' ha; subst ha
-      refine Conf.pmBind mintAuto _ _ _ _ _ (conf_noWrites mintAuto _ (noWrites_failIf _ _) _) ?_ herr
+      refine Conf.pmBind mintAuto _ _ _ _ _ (conf_noWrites mintAuto (fun _ h => h) _ (noWrites_failIf _ _) _) ?_ herr
       intro _ a' ha; subst ha
-      refine Conf.pmBind mintAuto _ _ _ _ _ (conf_noWrites mintAuto _ (noWrites_dbTry _ rfl) _) ?_ herr
+      refine Conf.pmBind mintAuto _ _ _ _ _ (conf_noWrites mintAuto (fun _ h => h) _ (noWrites_dbTry _ rfl) _) ?_ herr
       intro _ a' ha; subst ha
-      refine Conf.pmBind mintAuto _ _ _ _ _ (conf_noWrites mintAuto _ (noWrites_failIf _ _) _) ?_ herr
+      refine Conf.pmBind mintAuto _ _ _ _ _ (conf_noWrites mintAuto (fun _ h => h) _ (noWrites_failIf _ _) _) ?_ herr
       intro _ a' ha; subst ha
-      refine Conf.pmBind mintAuto _ _ _ _ _ (conf_noWrites mintAuto _ (noWrites_failIf _ _) _) ?_ herr
+      refine Conf.pmBind mintAuto _ _ _ _ _ (conf_noWrites mintAuto (fun _ h => h) _ (noWrites_failIf _ _) _) ?_ herr
       intro _ a' ha; subst ha
-      refine Conf.pmBind mintAuto _ _ _ _ _ (conf_noWrites mintAuto _ (noWrites_liftE _) _) ?_ herr
+      refine Conf.pmBind mintAuto _ _ _ _ _ (conf_noWrites mintAuto (fun _ h => h) _ (noWrites_liftE _) _) ?_ herr
       intro sigs a' ha; subst ha
       -- UpdateMintQuoteState(ISSUED)
       refine Conf.pmBind mintAuto (fun r a' => match r with | .ok _ => a' = MSt.st q.id .issued | .error _ => a' = MSt.st q.id .pending) _ _ _ _ ?_ ?_ ?_
